@@ -50,7 +50,8 @@ where
     }
 
     let source = self.source.clone();
-    let subject = self.subject.clone();
+    // (a hook-less handle: this closure is stored in the subject's own hook)
+    let subject = self.subject.sink();
     let subscription = Arc::clone(&self.subscription);
     let wanted = Arc::clone(&self.wanted);
 
